@@ -390,6 +390,9 @@ func runC20(c *Ctx, scAny any) {
 		return l, nil
 	}
 	simsync.HookListenUDP = func(network string, la *net.UDPAddr) (net.PacketConn, error) {
+		if v, _ := sc.get("UDP"); v != "true" {
+			c.Fail("config", "udp-unasked", "ck-client listens for UDP on %v although neither the configuration nor the command line (%v) asks for it", la, os.Args)
+		}
 		return c.Net.NewPacketSock(la.String()), nil
 	}
 	// a third of the runs give the server address and the proxy method on the
@@ -408,6 +411,38 @@ func runC20(c *Ctx, scAny any) {
 				progOpts[i].Val = "other"
 			}
 		}
+	}
+	// likewise -p, -l and -i (one of them in three quarters of the runs): the
+	// command line carries the configured value - for the ports that is the
+	// flag's own default, 443 and 1984 - while the configuration text says
+	// something else; and -u=false over a text that asks for UDP
+	setOpt := func(key, wrong string) (string, bool) {
+		for i := range progOpts {
+			if progOpts[i].Key == key {
+				v := progOpts[i].Val
+				progOpts[i].Val = wrong
+				return v, true
+			}
+		}
+		return "", false
+	}
+	switch (sc.Seed >> 8) % 4 {
+	case 1:
+		if v, ok := setOpt("RemotePort", "8443"); ok {
+			extraArgs = append(extraArgs, "-p", v)
+		}
+	case 2:
+		if v, ok := setOpt("LocalPort", "1999"); ok {
+			extraArgs = append(extraArgs, "-l", v)
+		}
+	case 3:
+		if v, ok := setOpt("LocalHost", "10.0.7.9"); ok {
+			extraArgs = append(extraArgs, "-i", v)
+		}
+	}
+	if _, has := sc.get("UDP"); !has && (sc.Seed>>12)%4 == 0 {
+		progOpts = append(progOpts, C20Opt{Key: "UDP", Val: "true"})
+		extraArgs = append(extraArgs, "-u=false")
 	}
 	cfgArg := c20RenderSSV(progOpts)
 	if sc.Syntax == "json" {
